@@ -233,6 +233,16 @@ func partB(r *vf.Run) {
 			}
 		}
 	}
+	// what counts as a hex digit is a per-octet table too: every pair of octets behind a '%', alone,
+	// behind a rewritable escape (the slow path) and in front of one
+	for b1 := 0; b1 < 256; b1++ {
+		for b2 := 0; b2 < 256; b2++ {
+			pair := "%" + string([]byte{byte(b1), byte(b2)})
+			try("/x" + pair + "y")
+			try("/%61" + pair)
+			try(pair + "%7e/")
+		}
+	}
 	r.Eval(n)
 	r.NontrivialN(n)
 	r.Set("octet_sweep_strings", n)
